@@ -112,32 +112,30 @@ def run(ck, facts, tier):
             continue
         r = rs[0]
         where = "%s:%d" % (r["file"], r["line"])
-        b = r["body"]
-        while b.get("k") == "block" and not b["stmts"] and "e" in b:
-            b = b["e"]
-        ok = b.get("k") == "mcall" and b["m"] == "fold" and len(b["args"]) == 2 and b["args"][1].get("k") == "closure"
-        why = "body is not iter.fold(init, closure)"
-        if ok:
-            try:
-                init = ev.eval(b["args"][0], {}, 0)
-                ok = isinstance(init, Rec) and init.fields["real"].is_zero() and init.fields["dual"].is_zero() and \
-                    (not num.endswith("2") or init.fields["dual2"].is_zero()) and init.fields["vars"].tag == ("novars",)
-                why = "fold does not start from a variable-free zero: %s" % cel.vfmt(init)
-            except Unsupported as e:
-                ok, why = False, "initial value not modelled (%s)" % e
-        if ok:
-            clo = b["args"][1]
-            body = clo["body"]
-            while body.get("k") == "block" and not body["stmts"] and "e" in body:
-                body = body["e"]
-            ids = [p.get("id") for p in clo["params"]]
-            def loc(x):
-                while x.get("k") == "ref":
-                    x = x["e"]
-                return x.get("id") if x.get("k") == "path" else None
-            ok = body.get("k") == "bin" and body["op"] == "Add" and {loc(body["l"]), loc(body["r"])} == set(ids) and len(set(ids)) == 2
-            why = "fold step is not `acc + x`: %s" % hir.fmt(body)
-        ck.check(r4, "Sum for " + num.split("::")[-1], ok, why, where, sample="iter.fold(new(0.0, []), |acc, x| acc + x)")
+        # evaluated symbolically (so the fold may sit in the impl or in a generic helper it calls): the result is fold(items; zero; acc -> acc + item) with the
+        # contained type's own addition rule and a variable-free zero
+        key = "Sum for " + num.split("::")[-1]
+        try:
+            item = cel.operand("x", num)
+            it = cel.Seq(Sym("param", "iter"), lambda idx, item=item: item)
+            got = cel.Ev(facts).apply_fn(r["fn"], [it], 0)
+            ok = isinstance(got, Sym) and got.tag[0] == "fold" and got.tag[1] == cel.vkey(Sym("param", "iter"))
+            why = "sum is not a fold over the items: %s" % cel.vfmt(got)[:200]
+            if ok:
+                acc = cel.operand("acc", num)
+                flds = ["real", "dual"] + (["dual2"] if num.endswith("2") else [])
+                zero = Rec(num, dict({"real": Poly.const(0), "dual": Poly({}, 1), "vars": Sym("novars")}, **({"dual2": Poly({}, 2)} if num.endswith("2") else {})))
+                want = oracle.expected("add", acc, item)
+                add_fn = next(rr["fn"] for rr in facts.all_fns() if rr.get("trait_item") == "std::ops::Add::add" and rr.get("sig") == [num, num])
+                step_l = cel.Ev(facts).apply_fn(add_fn, [acc, item], 0)
+                ok = got.tag[2] == cel.vkey(zero)
+                why = "the fold does not start from a variable-free zero"
+                if ok:
+                    ok = got.tag[3] == cel.vkey(step_l) and isinstance(step_l, Rec) and all(step_l.fields.get(f) == want[f] for f in flds)
+                    why = "the fold step is not `acc + item` by the addition rule"
+            ck.check(r4, key, ok, why, where, detail=cel.vfmt(got)[:300], sample="iter.fold(new(0.0, []), |acc, x| acc + x)")
+        except Unsupported as e:
+            ck.fail(r4, key, "rule could not be established (%s)" % e, where)
 
     # ---- R19.5 identities
     r5 = ck.rule("R19.5", "zero() = new(0, []) and one() = new(1, []): variable-free constants (neutral under the R01.1/R02.1 forms of + and *)", floor=4)
@@ -162,5 +160,7 @@ def run(ck, facts, tier):
     ea, em = oracle.expected("add", u, z), oracle.expected("mul", u, o)
     ck.check(r5, "neutrality", all(ea[f] == u.fields[f] and em[f] == u.fields[f] for f in ("real", "dual", "dual2")),
              "oracle rows do not make (0,0,0)/(1,0,0) neutral", sample="u + 0 = u, u * 1 = u in value, gradient and Hessian by the table")
+    from rules import deps
+    deps.include_number_surface(ck, facts, tier)
     ck.not_decided += ["NaN ordering (partial_cmp returns None; derived operators are then all false)", "abs at exactly zero (derivative undefined; either branch accepted)"]
     ck.trusted += ["lib/cel.py", "lib/oracle.py"]
